@@ -46,9 +46,32 @@ impl Ctx {
     }
     /// choose a count by tier, scaled
     pub fn n(&self, quick: u64, thorough: u64) -> u64 {
+        // per-property budget factors (quick, thorough), set after the allocator tuning made most
+        // workloads several times cheaper: quick checks stay around 10-40 s each on 16 cores,
+        // thorough ones around 4-9 min. Enumerations of fixed size are not affected.
+        let (fq, ft): (u64, u64) = match self.prop.as_str() {
+            "C01" => (4, 6),
+            "C02" => (3, 4),
+            "C03" => (1, 4),
+            "C04" => (4, 1),
+            "C05" => (2, 5),
+            "C06" => (3, 1),
+            "C07" => (2, 1),
+            "C08" => (3, 2),
+            "C09" => (2, 2),
+            "C10" => (4, 8),
+            "C11" => (4, 2),
+            "C12" => (6, 2),
+            "C13" => (4, 5),
+            "C14" => (2, 1),
+            "C15" => (3, 3),
+            "C18" => (3, 1),
+            "C19" => (2, 1),
+            _ => (1, 1),
+        };
         let base = match self.tier {
-            Tier::Quick => quick,
-            Tier::Thorough => thorough,
+            Tier::Quick => quick * fq,
+            Tier::Thorough => thorough * ft,
             Tier::Tiny => (quick / 200).max(4),
         };
         ((base as f64 * self.scale) as u64).max(1)
